@@ -18,6 +18,9 @@ Two further scenario classes use the same clauses as a disjunction (raise + unto
   key-file histories                save; give the root / a sub-configuration / a config type another key file (or use a
                                     sub-configuration on its own first, or move it between roots); change a secret; save
                                     again; a fresh configuration naming the key files in force must load every secret
+  document boundary sweep           text of every length 0..300 (all document lengths modulo 256), values beginning or
+                                    ending with whitespace / control bytes, at the root and nested, every format:
+                                    file == dumps, Config.load(file) and loads(file bytes) equal the saved one
   un-encodable values               bytes, bytearray, Decimal, Fraction, complex, set, frozenset, range, date, datetime,
                                     custom object, generator held in AnyField / dynamic fields / untyped lists and dicts
                                     (also nested), every format (minus the codecs' documented coercions): a save that
@@ -966,6 +969,112 @@ def evaluate_unencodable(tmp, case):
 
 
 # ---------------------------------------------------------------------------------------------------------------
+# Document boundary sweep: the serialised size runs through a whole period of every format's length/header bytes,
+# and values begin/end with whitespace or control bytes; file == dumps, and load(file) / loads(file bytes) give back
+# an equal configuration
+# ---------------------------------------------------------------------------------------------------------------
+
+SWEEP_SIZES = range(0, 301)
+EDGE_STRINGS = {"leading-space": " x", "trailing-space": "x ", "space-only": " ", "newline": "\n", "newline-both-ends": "\nx\n",
+                "tabs": "\t\t", "crlf": "\r\n", "vertical-tab": "\x0b", "form-feed": "\x0c", "nul": "\x00",
+                "nul-both-ends": "\x00x\x00"}
+NOT_IN_XML = {"crlf", "vertical-tab", "form-feed", "nul", "nul-both-ends"}  # XML: XML characters without carriage return
+_WS = b" \t\n\r\x0b\x0c"
+_SWEEP_SCHEMAS = {}
+
+
+def _sweep_schema(tmp):
+    """one schema for the whole sweep of a run"""
+    import cincoconfig as cc
+    if tmp not in _SWEEP_SCHEMAS:
+        _SWEEP_SCHEMAS.clear()
+        s = cc.Schema()
+        s.text = cc.StringField()
+        s.blob = cc.BytesField()
+        s.sub.text = cc.StringField()
+        s.sub.blob = cc.BytesField()
+        _SWEEP_SCHEMAS[tmp] = s
+    return _SWEEP_SCHEMAS[tmp]
+
+
+def _byte_class(b):
+    if bytes([b]) in [_WS[i:i + 1] for i in range(len(_WS))]:
+        return "whitespace"
+    if b < 0x20 or b == 0x7f:
+        return "control"
+    return "other"
+
+
+def sweep_cases():
+    for fmt in FORMATS:
+        for place in ("root", "nested"):
+            for n in SWEEP_SIZES:
+                yield {"sweep": "size", "fmt": fmt, "place": place, "n": n}
+            for kind in EDGE_STRINGS:
+                if fmt == "xml" and kind in NOT_IN_XML:
+                    continue
+                yield {"sweep": "edge", "fmt": fmt, "place": place, "edge": kind}
+            for b in range(256):
+                yield {"sweep": "edge", "fmt": fmt, "place": place, "edge": "bytes:%d" % b}
+
+
+def evaluate_sweep(tmp, case):
+    from cincoconfig.core import Config
+    fmt = case["fmt"]
+    schema = _sweep_schema(tmp)
+    cfg = Config(schema)
+    target = cfg if case["place"] == "root" else cfg.sub
+    if case["sweep"] == "size":
+        target.text = "x" * case["n"]
+    elif case["edge"].startswith("bytes:"):
+        b = int(case["edge"][6:])
+        target.blob = bytes([b]) + b"mid" + bytes([b])
+    else:
+        target.text = EDGE_STRINGS[case["edge"]]
+    dest = os.path.join(tmp, "out", "sweep." + fmt)  # the previous content is the previous document of the sweep
+    os.makedirs(os.path.dirname(dest), exist_ok=True)
+    before = read_state(dest)
+    res = run_save(cfg, dest, fmt, {}, None)
+    out = _judge_saved_or_untouched(res, cfg, Config(schema), dest, fmt, before, "(%s)" % _sweep_label(case))
+    data = read_state(dest) or b""
+    if out["outcome"] == "saved":
+        again = Config(schema)
+        try:
+            again.loads(data, fmt)
+        except Exception as lerr:
+            out["failures"].append((OB_LOADS_BACK, "save succeeded (%s) but loads(file bytes) failed: %s: %s"
+                                    % (_sweep_label(case), type(lerr).__name__, str(lerr)[:90])))
+        else:
+            diffs = diff_config(cfg, again)
+            if diffs:
+                out["failures"].append((OB_LOADS_BACK, "save succeeded (%s) but loads(file bytes) differs at %s: saved %s, loaded %s"
+                                        % ((_sweep_label(case),) + diffs[0])))
+    # witness class: by the first / last byte of the document for the size sweep, by the kind of value for edge values
+    if case["sweep"] == "size":
+        lead, trail = (_byte_class(data[0]), _byte_class(data[-1])) if data else ("other", "other")
+        if lead != "other":
+            bucket = "leading-byte-is-" + lead
+        elif trail != "other":
+            bucket = "trailing-byte-is-" + trail
+        else:
+            bucket = "other-lengths"
+        out["witness"] = "size-sweep:%s:%s" % (fmt, bucket)
+        out["doc"] = "%d bytes, len%%256=%d, first byte 0x%02x" % (len(data), len(data) % 256, data[0] if data else 0)
+        out["failures"] = [(ob, "%s [document: %s]" % (what, out["doc"])) for ob, what in out["failures"]]
+    elif case["edge"].startswith("bytes:"):
+        out["witness"] = "edge-bytes:%s:bytes-%s-at-both-ends" % (fmt, _byte_class(int(case["edge"][6:])))
+    else:
+        out["witness"] = "edge-bytes:%s:%s" % (fmt, case["edge"])
+    return out
+
+
+def _sweep_label(case):
+    if case["sweep"] == "size":
+        return "%s text of %d characters, %s" % (case["place"], case["n"], case["fmt"])
+    return "%s value %s, %s" % (case["place"], case["edge"], case["fmt"])
+
+
+# ---------------------------------------------------------------------------------------------------------------
 # Enumeration
 # ---------------------------------------------------------------------------------------------------------------
 
@@ -1020,6 +1129,8 @@ def cases(tier, rng):
                     continue  # a documented coercion of the codec, outside the representable domain (see above)
                 for prior in ("previous-save", "absent"):
                     yield {"unencodable": kind, "holder": holder, "fmt": fmt, "prior": prior}
+    # document boundary sweep
+    yield from sweep_cases()
     if tier != "quick":
         while True:
             fmt = rng.choice(FORMATS)
@@ -1047,6 +1158,8 @@ def witness_base(case, obligation):
 
 
 def dispatch(tmp, case):
+    if case.get("sweep"):
+        return evaluate_sweep(tmp, case)
     if case.get("history"):
         return evaluate_history(tmp, case)
     if case.get("keyfile_history"):
@@ -1078,7 +1191,8 @@ def rac(tier: str, seed: int) -> dict:
              "one fault injected (or none) and spies on Config.dumps/builtins.open; enumerated: configuration kind x "
              "format x formatter options x previous content for successful saves, every applicable (fault, kind, "
              "format, previous content) for failing ones, all 27 ok0/ok1/fault histories per format, every key-file "
-             "history x format, every (un-encodable value kind, holder, format, previous content); a fault case is "
+             "history x format, every (un-encodable value kind, holder, format, previous content), the document "
+             "boundary sweep (format x root/nested x text length 0..300, x edge strings, x 256 edge bytes); a fault case is "
              "non-trivial when the save really failed before serialisation returned; witness classes: fault/previous "
              "content, key-file history name, un-encodable value kind, suffixed @format unless all five formats fail",
         bound="7 configuration kinds (flat, nested depth 3 + typed list/dict + list of schemas + config type + "
@@ -1092,7 +1206,10 @@ def rac(tier: str, seed: int) -> dict:
               "(2-3 saves; secrets xor/aes/best at the root, depth 1-2 sub-schemas, config type, list items and their "
               "sub-schema; 3 named key files + the default one); %d un-encodable value kinds x %d holders x 2 previous "
               "contents (tuples, non-string map keys, Decimal/datetime for bson excluded: documented codec coercions "
-              "outside the representable domain); os.urandom replaced by a seeded stream for the duration of the run"
+              "outside the representable domain); boundary sweep: 5 formats x 2 places x (301 text lengths, so every "
+              "document length modulo 256 incl. BSON length bytes 0x09-0x0d/0x20, + 11 strings beginning/ending with "
+              "whitespace/control characters where representable + BytesField with each byte 0..255 at both ends), "
+              "file == dumps, load(file) and loads(bytes) equal; os.urandom replaced by a seeded stream for the duration of the run"
               % (len(FAULTS), len(keyfile_histories()), len(unencodable_values()), len(HOLDERS)),
         tier=tier, seed=seed)
     pending = {}  # (obligation, base key) -> {fmt: (what, replay)}
@@ -1112,20 +1229,30 @@ def rac(tier: str, seed: int) -> dict:
             elif case.get("unencodable"):
                 key = ("unencodable", case["unencodable"], case["holder"], case["fmt"], case["prior"])
                 nontrivial = True
+            elif case.get("sweep"):
+                key = ("sweep", case["fmt"], case["place"], case.get("n"), case.get("edge"))
+                nontrivial = res["outcome"] == "saved"
             else:
                 key = (case["kind"], case["fmt"], case["prior"], case.get("fault"), json.dumps(case.get("kw") or {}, sort_keys=True),
                        case.get("dest", ""), case.get("variant", 1))
                 nontrivial = (res["outcome"] == "serialisation-failed") if case.get("fault") else (res["outcome"] == "saved")
             sample = None
-            if i % 211 == 0 or (case.get("fault") and i % 97 == 0) or (case.get("keyfile_history") and i % 41 == 0):
+            if (i % 211 == 0 and not case.get("sweep")) or (case.get("fault") and i % 97 == 0) \
+                    or (case.get("keyfile_history") and i % 41 == 0) or (case.get("sweep") and i % 1999 == 0):
                 sample = dict(case, outcome=res["outcome"], error=res["error"])
             rec.case(key=key, nontrivial=nontrivial, sample=sample)
             for ob, what in res["failures"]:
-                pending.setdefault((ob, witness_base(case, ob)), {}).setdefault(case["fmt"], (what, dict(case)))
+                if case.get("sweep"):  # these witness classes name their format themselves
+                    pending.setdefault((ob, res["witness"]), {}).setdefault(None, (what, dict(case)))
+                else:
+                    pending.setdefault((ob, witness_base(case, ob)), {}).setdefault(case["fmt"], (what, dict(case)))
     for (ob, base), per_fmt in pending.items():
         if sum(1 for v in rec.violations if v["obligation"] == ob) >= MAX_VIOLATIONS_PER_OBLIGATION:
             continue  # keeps the report of a badly broken tree readable (first classes in enumeration order)
-        if len(per_fmt) == len(FORMATS):  # fails in every format: one witness class
+        if None in per_fmt:
+            what, replay_case = per_fmt[None]
+            rec.violation(obligation=ob, what=what, replay=replay_case, witness_key=base)
+        elif len(per_fmt) == len(FORMATS):  # fails in every format: one witness class
             what, replay_case = per_fmt[FORMATS[0]]
             rec.violation(obligation=ob, what=what, replay=replay_case, witness_key=base)
         else:
@@ -1149,6 +1276,8 @@ def replay(case: dict) -> dict:
                     "fresh configuration naming the same key files loads the file back equal")
     elif case.get("unencodable"):
         expected = "the save raises and leaves the destination untouched, or succeeds and the file loads back equal"
+    elif case.get("sweep"):
+        expected = "the file holds exactly what dumps returned; Config.load(file) and loads(file bytes) give an equal configuration"
     elif case.get("fault"):
         expected = "save fails and the destination is byte-for-byte unchanged and never opened for writing"
     else:
